@@ -37,7 +37,8 @@ RULE = (
     "type 8), 1-4 channels, initial block size, max LPC order, mean length, skip bytes, and 1-10 rounds, each "
     "with optional BLOCKSIZE / BITSHIFT commands and per channel a command (DIFF0-3, QLPC with seeded order and "
     "coefficients, ZERO), residual-width slack and a sample recipe; then one fault or none (stream cut at a seeded "
-    "byte before its last word; unknown command code 9-12 at a round boundary or before QUIT; version byte "
+    "byte before its last word, as a fraction of its length or snapped to within 8 bytes of a multiple of 1 KiB; 1.2 % of "
+    "the runs cut a shipped vector that way; 15 % / 5 % first decode a damaged stream / a shipped vector of another type; unknown command code 9-12 at a round boundary or before QUIT; version byte "
     "0/3/7/255; file type 9-12). Non-trivial = a fault fired or >= 3 distinct command kinds were decoded. "
     "Distinct = distinct (version, type, channels, nmean, maxnlpc, sorted set of command kinds, fault kind, "
     "cut-position class)."
